@@ -193,6 +193,19 @@ def check_periodic(ctx, case):
         e = float(np.max(np.abs(one_more.get_control_matrix(om) - B3))/max(np.max(np.abs(B3)), 1e-300))
         if not e <= 1e-6:
             probs.append(('concatenate([periodic(p, G), p]) vs from scratch', e))
+    # everything the result serves for its own segments — whether carried over from the input's caches
+    # or computed lazily: cumulative propagators, and the control matrix / filter function on ANOTHER
+    # frequency grid (nothing of the shortcut can be reused there)
+    if not np.allclose(per.propagators, tp.propagators, atol=1e-9):
+        probs.append(('cumulative propagators of the result',
+                      float(np.max(np.abs(per.propagators - tp.propagators)))))
+    om_new = om*1.37 + 0.011
+    Bn_ref = tp.get_control_matrix(om_new)
+    Bn = per.get_control_matrix(om_new)
+    e = float(np.max(np.abs(Bn - Bn_ref))/max(np.max(np.abs(Bn_ref)), 1e-300)) \
+        if np.all(np.isfinite(Bn)) else np.inf
+    if not e <= 1e-6:
+        probs.append(('control matrix of the result on another grid vs from scratch', e))
     # reference 2: concatenation of G copies
     if G <= 5:
         cc = ff.concatenate([gens.build(desc) for _ in range(G)], omega=om,
